@@ -79,3 +79,50 @@ package config
 //@   modifies fresh []*net.IPNet, fresh *net.IPNet, fresh []string, fresh []interface{}
 //@   loop 1 invariant (ret == nil || fresh(ret)) && len(ret) == iter
 //@   loop 1 invariant forall i int :: 0 <= i && i < len(ret) ==> WfCIDR(ret[i]) && net.is4(ret[i].IP) == net.is4(start)
+
+// ---- C08: the pools of an accepted configuration have pairwise disjoint address sets ----
+//@ func addressPoolServiceAllocationsFromCR
+//@   trusted
+//@   ensures result0 == nil || fresh(result0)
+//@   modifies fresh *ServiceAllocation, fresh map[string]sets.Empty, fresh []labels.Selector, fresh []interface{}
+
+// AllWf: every network of the list is canonical.
+//@ pred AllWf(cs []*net.IPNet) := forall i int :: 0 <= i && i < len(cs) ==> WfCIDR(cs[i])
+//@ func addressPoolFromCR
+//@   ensures [pool] result1 == nil ==> result0 != nil && fresh(result0) && result0.Name == p.Name && p.Name != "" && len(result0.CIDR) >= 1 && AllWf(result0.CIDR)
+//@   ensures result1 != nil ==> result0 == nil
+//@   modifies fresh *Pool, fresh []*net.IPNet, fresh *net.IPNet, fresh []string, fresh []interface{}, fresh map[string][]*net.IPNet, fresh *ServiceAllocation, fresh map[string]sets.Empty, fresh []labels.Selector
+//@   loop 1 invariant ret != nil && fresh(ret) && ret.Name == p.Name && p.Name != "" && ret.cidrsPerAddresses != nil && fresh(ret.cidrsPerAddresses) && (ret.CIDR == nil || fresh(ret.CIDR)) && AllWf(ret.CIDR) && (iter > 0 ==> len(ret.CIDR) >= 1)
+
+// the attachment of advertisements and the remaining validations do not change pool names or address ranges
+//@ func communitiesFromCrs
+//@   trusted
+//@   modifies fresh map[string]community.BGPCommunity, fresh []interface{}
+//@ func setL2AdvertisementsToPools
+//@   trusted
+//@   modifies Pool.L2Advertisements, fresh *L2Advertisement, fresh []*L2Advertisement, fresh map[string]bool, fresh []string, fresh []interface{}
+//@ func validateDuplicateBGPAdvertisements
+//@   trusted
+//@   modifies nothing
+//@ func setBGPAdvertisementsToPools
+//@   trusted
+//@   modifies Pool.BGPAdvertisements, fresh *BGPAdvertisement, fresh []*BGPAdvertisement, fresh map[string]bool, fresh map[community.BGPCommunity]bool, fresh []string, fresh []interface{}
+
+// Disjoint: different networks of the list share no address (pairwise non-overlap), all canonical.
+//@ pred Disjoint(cs []*net.IPNet) := AllWf(cs) && (forall a int, b int :: 0 <= a && a < b && b < len(cs) ==> !Overlap(cs[a], cs[b]))
+// Listed: every address range of every pool accepted so far is in the list.
+//@ pred Listed(pools map[string]*Pool, cs []*net.IPNet) := forall n string, i int :: (n in pools) && 0 <= i && i < len(pools[n].CIDR) ==> (pools[n].CIDR[i] in cs)
+
+//@ func poolsFor
+//@   ensures [keyed] result1 == nil ==> result0 != nil && result0.ByName != nil && PoolsKeyed(result0.ByName)
+//@   ensures [disjoint] result1 == nil ==> (forall n string, m string, i int, j int :: (n in result0.ByName) && (m in result0.ByName) && 0 <= i && i < len(result0.ByName[n].CIDR) && 0 <= j && j < len(result0.ByName[m].CIDR)
+//@       && result0.ByName[n].CIDR[i] != result0.ByName[m].CIDR[j] ==> !Overlap(result0.ByName[n].CIDR[i], result0.ByName[m].CIDR[j]))
+//@   ensures [wf] result1 == nil ==> (forall n string :: (n in result0.ByName) ==> len(result0.ByName[n].CIDR) >= 1 && AllWf(result0.ByName[n].CIDR))
+//@   loop 1 invariant pools != nil && fresh(pools) && PoolsKeyed(pools) && (allCIDRs == nil || fresh(allCIDRs)) && Disjoint(allCIDRs) && Listed(pools, allCIDRs)
+//@   loop 1 invariant forall n string :: (n in pools) ==> len(pools[n].CIDR) >= 1 && AllWf(pools[n].CIDR) && fresh(pools[n])
+//@   loop 2 invariant pools != nil && fresh(pools) && PoolsKeyed(pools) && (allCIDRs == nil || fresh(allCIDRs)) && Disjoint(allCIDRs) && Listed(pools, allCIDRs)
+//@   loop 2 invariant forall n string :: (n in pools) ==> len(pools[n].CIDR) >= 1 && AllWf(pools[n].CIDR) && fresh(pools[n])
+//@   loop 2 invariant pool != nil && fresh(pool) && pool.Name == p.Name && p.Name != "" && len(pool.CIDR) >= 1 && AllWf(pool.CIDR) && !(p.Name in pools)
+//@   loop 2 invariant forall i int :: 0 <= i && i < iter ==> (pool.CIDR[i] in allCIDRs)
+//@   loop 3 invariant 0 <= idx(2) && idx(2) < len(pool.CIDR) && cidr == pool.CIDR[idx(2)] && WfCIDR(cidr)
+//@   loop 3 invariant forall b int :: 0 <= b && b < iter ==> !Overlap(cidr, allCIDRs[b])
